@@ -170,6 +170,15 @@ var Ops = []Op{
 		_, err := tokenexchange.ExchangeToken(ctxBG, in.TE, a.Tok.Access, oidc.AccessTokenType, "", "", nil, nil, []string{"openid"}, oidc.AccessTokenType)
 		return class(err)
 	}, ""},
+	// ---- JWT profile token source (deep round 4): signs an assertion with the source's signer and posts it with the source's client
+	{"profile.jwtProfileTokenSource.TokenCtx", "jp", func(w *World, in *Instance, a *Args) string {
+		_, err := in.JP.TokenCtx(ctxBG)
+		return class(err)
+	}, ""},
+	{"profile.jwtProfileTokenSource.Token", "jp", func(w *World, in *Instance, a *Args) string {
+		_, err := in.JP.Token()
+		return class(err)
+	}, ""},
 	// ---- key set
 	{"rp.remoteKeySet.VerifySignature", "ks", func(w *World, in *Instance, a *Args) string {
 		_, err := in.KS.VerifySignature(ctxBG, a.JWS)
@@ -398,6 +407,8 @@ func (o *Op) Applies(in *Instance) bool {
 		return in != nil && in.RS != nil
 	case "te":
 		return in != nil && in.TE != nil
+	case "jp":
+		return in != nil && in.JP != nil
 	case "ks":
 		return in != nil && in.KS != nil
 	case "prov":
